@@ -22,9 +22,13 @@ RECURSIVE SumP(_, _, _, _)
 SumP(xx, t, km, p) == IF p = 0 THEN 0 ELSE Wt(t, p, xx[p], km) + SumP(xx, t, km, p - 1)
 F(xx, t, km) == SumP(xx, t, km, Len(xx))
 Sq(v) == v * v
+\* loss(y, y_hat) per output.  "mse": (y - y_hat)^2.  "asym": an asymmetric loss, (y - y_hat)^2 when the prediction is at or below
+\* the target and 3 (y - y_hat)^2 when it overshoots -- the ORDER of the two arguments matters (a problem without the field is mse)
+LossKind(pr) == IF "loss" \in DOMAIN pr THEN pr.loss ELSE "mse"
+Cost(pr, y, yhat) == IF LossKind(pr) = "asym" /\ yhat > y THEN 3 * Sq(y - yhat) ELSE Sq(y - yhat)
 RECURSIVE SumMask(_, _, _)
 SumMask(pr, xx, ts) == IF ts = {} THEN 0 ELSE LET t == CHOOSE t \in ts : TRUE IN
-                        Sq(pr.y[t + 1] - F(xx, t, pr.km)) + SumMask(pr, xx, ts \ {t})
+                        Cost(pr, pr.y[t + 1], F(xx, t, pr.km)) + SumMask(pr, xx, ts \ {t})
 SL(pr, xx) == SumMask(pr, xx, pr.mask)
 M(pr) == Cardinality(pr.mask)
 Sub1(xx, mo, p) == [i \in 1..Len(xx) |-> IF i > p /\ i <= p + Len(mo) THEN mo[i - p] ELSE xx[i]]
